@@ -4,6 +4,7 @@ use serde_json::Value;
 
 pub mod common;
 pub mod netsim;
+pub mod modes;
 pub mod c01;
 pub mod c02;
 pub mod c03;
